@@ -326,9 +326,7 @@ _AC_ACTIVE_FAN_SPEED_MAPPING = {
     ac_status_msg.AcFanSpeed.INTELLIGENT_AUTO_POWERFUL: (
         pyairtouch.api.AcFanSpeed.POWERFUL
     ),
-    ac_status_msg.AcFanSpeed.INTELLIGENT_AUTO_TURBO: (
-        pyairtouch.api.AcFanSpeed.INTELLIGENT_AUTO
-    ),
+    ac_status_msg.AcFanSpeed.INTELLIGENT_AUTO_TURBO: (pyairtouch.api.AcFanSpeed.TURBO),
 }
 _API_FAN_SPEED_CONTROL_MAPPING = {
     pyairtouch.api.AcFanSpeed.AUTO: ac_ctrl_msg.AcFanSpeedControl.AUTO,
